@@ -1006,6 +1006,9 @@ fn kind_of_rules(plan: &[Rule], sk: &StdoutKind) -> String {
     if *sk == StdoutKind::PipeClosed {
         return "real:pipe-closed".into();
     }
+    if plan.len() == 3 && plan.iter().all(|r| r.act == "eintr" && r.op == plan[0].op && r.target == plan[0].target) {
+        return format!("{}:eintr-x3", plan[0].op);
+    }
     if plan.len() == 1 {
         let r = &plan[0];
         let a = r.act.replace("errno:", "");
@@ -1025,6 +1028,12 @@ fn kind_of_rules(plan: &[Rule], sk: &StdoutKind) -> String {
 fn classify_rules(plan: &[Rule], sk: &StdoutKind) -> FaultClass {
     if *sk != StdoutKind::File {
         return FaultClass::Hard;
+    }
+    if !plan.is_empty() && plan.iter().all(|r| r.act.starts_with("short")) {
+        return FaultClass::Invisible;
+    }
+    if !plan.is_empty() && plan.iter().all(|r| r.act == "eintr") {
+        return FaultClass::Transparent;
     }
     if plan.len() == 1 {
         let r = &plan[0];
